@@ -69,6 +69,10 @@ def run(tier, seed, rng):
         B, C, H, W, O, kh, kw, sh, sw, ph, pw = g
         gen = torch.Generator().manual_seed(sd)
         x = torch.randint(-3, 4, (B, C, H, W), generator=gen).double()
+        if sd % 3 == 1:
+            x = x.contiguous(memory_format=torch.channels_last)
+        elif sd % 3 == 2:
+            x = x.permute(0, 2, 3, 1).contiguous().permute(0, 3, 1, 2)      # values unchanged, stored NHWC, handed over as a view
         m = torch.nn.Conv2d(C, O, (kh, kw), stride=(sh, sw), padding=(ph, pw), bias=hb).double()
         with torch.no_grad():
             m.weight.copy_(torch.randint(-3, 4, m.weight.shape, generator=gen).double())
